@@ -1,0 +1,21 @@
+//go:build verif
+
+package gr
+
+// Contracts for the goblvc verifier (see /verif/DESIGN.md). Comments only.
+//
+// C13 (Greece, AFM): nine digits; the first eight are weighted 2^8 .. 2^1, the ninth is the
+// weighted sum modulo 11 modulo 10.
+//@ rec grSum(val string, k int) int = ite(k <= 0, 0, grSum(val, k - 1) + (s_byte(val, k - 1) - 48) * pow2(9 - k))
+//@ func hasValidChecksum(val) (ok)
+//@   requires len(val) == 9 && digitsIn(val, 0, 9)
+//@   ensures [iff] ok <==> grSum(val, 8) % 11 % 10 == s_byte(val, 8) - 48
+//@   loop 1 invariant len(digits) == 9 && (forall j int :: 0 <= j && j < $pos ==> digits[j] == s_byte(val, j) - 48)
+//@   loop 2 invariant len(digits) == 9 && (forall j int :: 0 <= j && j < 9 ==> digits[j] == s_byte(val, j) - 48) && 0 <= i && i <= 8 && sum == grSum(val, i) && sum >= 0 && sum <= 2304 * i
+//
+//@ pin taxCodeRegexp regexp.MustCompile(`^\d{9}$`)
+//@ global taxCodeRegexp != nil && (forall s string :: reMatch(taxCodeRegexp, s) <==> len(s) == 9 && digitsIn(s, 0, 9))
+//@ func validateTaxCode(value) (err)
+//@   let code = unboxed(value, cbc.Code)
+//@   ensures [iff] typeis(value, cbc.Code) && code != "" ==> (err == nil <==> len(code) == 9 && digitsIn(code, 0, 9) && grSum(code, 8) % 11 % 10 == s_byte(code, 8) - 48)
+//@   ensures [skip] !typeis(value, cbc.Code) || code == "" ==> err == nil
